@@ -142,6 +142,8 @@ pub fn c06(o: &mut Out, seed: u64, sc: &Scale) {
             finish_live(w);
         });
     }
+    // --- end to end through fixture::ClientServer / fixture::lo with rule-driven loss and latency.
+    crate::fixture::run(o, seed, (sc.walks / 10).max(30));
     // --- safety-only walks: unbounded loss, duplication, long holds.
     for _ in 0..sc.walks / 2 {
         let mut r = rng.fork();
